@@ -82,7 +82,7 @@ func tarEv(in string, i int, m tarMember) M {
 		ps = m.Pax["APK-TOOLS.checksum.SHA1"]
 	}
 	return M{"ev": "tar", "in": in, "i": i, "name": safeStr(m.Name), "type": m.Type, "mode": m.Mode & 0o7777, "modex": clampInt(m.Mode >> 12), "modeoct": strconv.FormatInt(int64(m.Mode), 8), "uid": m.UID, "gid": m.GID,
-		"uname": m.Uname, "gname": m.Gname, "mt": clampInt(m.Mtime), "size": m.Size, "dlen": len(m.Data), "link": safeStr(m.Link),
+		"uname": m.Uname, "gname": m.Gname, "mt": clampInt(m.Mtime), "atime": clampInt(m.Atime), "ctime": clampInt(m.Ctime), "size": m.Size, "dlen": len(m.Data), "link": safeStr(m.Link),
 		"cid": d.Cid, "md5": d.MD5, "sha1": d.SHA1, "sha256": d.SHA256, "pax_sha1": ps, "tfmt": m.Format}
 }
 
